@@ -355,7 +355,7 @@ def format_one(eng, flags, width, prec, conv, val):
     left = '-' in flags
     if conv == 's':
         if isinstance(val, AbsStr):
-            raise Unsupported('%s of formatted number')
+            return val
         if is_strlike(val):
             s = val
         elif isinstance(val, (int, Fraction)) and not isinstance(val, bool):
@@ -407,7 +407,7 @@ def format_one(eng, flags, width, prec, conv, val):
 def int_to_symstr(eng, val, width, left):
     """'%Nd' % symbolic int: exact character-vector model for |val| < 10**MAXD."""
     MAXD = None
-    for k in (2, 3, 5, 8, 12):
+    for k in range(1, 13):
         if not eng.feasible(z3.Not(z3.And(val > -10 ** k, val < 10 ** k))):
             MAXD = k
             break
@@ -425,8 +425,12 @@ def int_to_symstr(eng, val, width, left):
     cap = max(width, MAXD + 1)
     total = concretize(z3.If(natlen >= width, natlen, z3.IntVal(width)))
     # digit j (from the left, 0-based) of a: (a / 10**(nd-1-j)) % 10
+    # decimal digits as fresh variables tied to a by a linear constraint (no div/mod)
+    ds = [z3.Int(eng.fresh('digit')) for _ in range(MAXD)]
+    eng.assume(z3.And(*[z3.And(d >= 0, d <= 9) for d in ds]))
+    eng.assume(a == z3.Sum([d * (10 ** r) for r, d in enumerate(ds)]))
     def digit_from_right(r):
-        return (a / (10 ** r)) % 10
+        return ds[r]
     natchars = []
     for j in range(MAXD + 1):
         # position j in the natural string: sign at 0 if neg
@@ -437,7 +441,12 @@ def int_to_symstr(eng, val, width, left):
         e = z3.If(z3.And(neg, j == 0), 45, e)
         natchars.append(concretize(e))
     nat = SymStr(natchars, natlen)
-    return V.str_just(nat, width, left) if width else nat
+    if not width:
+        return nat
+    r = V.str_just(nat, width, left)
+    if isinstance(r, SymStr) and not r.fixed and not eng.feasible(natlen > width):
+        return SymStr(r.chars[:width])      # the value always fits: the result has exactly `width` characters
+    return r
 
 
 def str_format(eng, fmt, args):
@@ -467,7 +476,10 @@ def str_format(eng, fmt, args):
     if len(out) == 1:
         return out[0]
     if any(isinstance(o, AbsStr) for o in out):
-        raise Unsupported('formatted number inside a larger format string')
+        # opaque text (only its existence matters, e.g. an exception message)
+        n = z3.Int(eng.fresh('msglen'))
+        eng.assume(n >= 0)
+        return AbsStr(n, 'opaque', None, 'message')
     r = ''
     for o in out:
         r = V.str_concat(r, o)
@@ -639,6 +651,8 @@ def _endswith(eng, s, suffix):
 @SM('join')
 def _join(eng, sep, parts):
     parts = eng.iterate(parts)
+    if len(parts) == 1 and isinstance(parts[0], AbsStr):
+        return parts[0]
     if any(isinstance(p, AbsStr) for p in parts):
         raise Unsupported('join of formatted number strings')
     for p in parts:
@@ -943,6 +957,10 @@ def b_str(eng, x=''):
     if isinstance(x, int): return str(x)
     if x is None: return 'None'
     if is_z3(x) and z3.is_int(x): return int_to_symstr(eng, x, 0, False)
+    if is_z3(x) and z3.is_real(x):
+        n = z3.Int(eng.fresh('strlen'))
+        eng.assume(n >= 1)
+        return AbsStr(n, 'str', x, 'str')
     if isinstance(x, tuple) and not is_symbolic(x): return str(x)
     raise Unsupported('str() of %s' % type(x).__name__)
 
